@@ -43,6 +43,9 @@ def run_programs(ctx, programs, what, sigfn=default_sig, nontrivial=None, batch=
             if e['op'] == 'SetMode':
                 mode = e['m']
                 continue
+            if e['op'] == 'SetConv':
+                mode = mode.split('+')[0] + ('+MC' if e['on'] else '')
+                continue
             if e['op'] == 'Lit':
                 regvals[e['z']] = ('n', e['a']) if e['k'] == 'n' else ('u', e['u'])
                 continue
